@@ -507,3 +507,82 @@ Proof.
   rewrite (compare_evaluations_ext (fun x y => wt x y t) (fun x y => wt' x y t)) by (intros; apply H1).
   destruct (compare_evaluations (fun x y => wt' x y t) evs); simpl; [rewrite H2; reflexivity | reflexivity].
 Qed.
+
+(* ------------------------------------------------------------------------------------------------ *)
+(* the general end-to-end statement: finite values of any kind (real, complex, arrays of any shape)   *)
+(* ------------------------------------------------------------------------------------------------ *)
+Lemma within_finite : forall x y d t, tol_neg t = false -> v_finite x = true -> v_finite y = true ->
+  v_sub x y = Some d -> within_tolerance x y t = Some (Qle_bool (v_norm2 d) (tol_sq t x)).
+Proof.
+  intros x y d t Ht Fx Fy Hd. rewrite within_spec by exact Ht.
+  destruct x as [a | p | s a]; destruct y as [b | q | s' b]; simpl in *; try discriminate.
+  - inversion Hd; subst. reflexivity.
+  - destruct (shape_eqb s s'); [ | discriminate]. destruct (cqs_sub a b); [ | discriminate].
+    inversion Hd; subst. reflexivity.
+Qed.
+
+(* a sample whose author's and student's values are finite and of the same shape *)
+Definition finite_sample (ev : sample) : Prop :=
+  exists e rest d, fst ev = e :: rest /\ v_finite e = true /\ v_finite (snd ev) = true /\ v_sub e (snd ev) = Some d.
+
+(* the student's value differs from the author's by MORE than the tolerance:  ||e - s||^2 > tol^2 *)
+Definition sample_miss (t : tolx) (ev : sample) : bool :=
+  match fst ev with
+  | e :: _ => match v_sub e (snd ev) with Some d => Qltb (tol_sq t e) (v_norm2 d) | None => false end
+  | [] => false
+  end.
+Definition misses (t : tolx) (evs : list sample) : Z := zlen (filter (sample_miss t) evs).
+
+Lemma sample_oks_finite : forall t evs, tol_neg t = false -> Forall finite_sample evs ->
+  sample_oks (fun x y => within_tolerance x y t) evs = Some (map (fun ev => negb (sample_miss t ev)) evs).
+Proof.
+  intros t evs Ht H. induction H as [|[ps s] r [e [rest [d [E1 [F1 [F2 Hd]]]]]] _ IH]; [reflexivity|].
+  simpl in E1, F2, Hd. subst ps. rewrite sample_oks_cons. rewrite (within_finite e s d t Ht F1 F2 Hd), IH.
+  simpl. unfold sample_miss. simpl. rewrite Hd. unfold Qltb. rewrite negb_involutive. reflexivity.
+Qed.
+
+Theorem verdict_general : forall t failable answer evs, tol_neg t = false -> (0 <= failable)%Z ->
+  Forall finite_sample evs ->
+  raw_check t failable answer evs =
+    Some (if enough (zlen evs) (misses t evs) failable then answer else fail_entry answer).
+Proof.
+  intros t failable answer evs Ht Hf H.
+  rewrite (verdict_iff_failures _ _ _ _ _ Hf (sample_oks_finite t evs Ht H)).
+  unfold nfail, misses. rewrite filter_negb_map, zlen_map.
+  assert (E : filter (fun a => negb (negb (sample_miss t a))) evs = filter (sample_miss t) evs).
+  { clear. induction evs as [|a l IH]; simpl; [reflexivity|]. rewrite negb_involutive, IH. reflexivity. }
+  rewrite E. reflexivity.
+Qed.
+
+(* every list of well-shaped samples has an outcome list: the hypothesis of verdict_iff_failures is satisfiable *)
+Definition well_shaped (ev : sample) : Prop :=
+  exists e rest, fst ev = e :: rest /\
+    ((exists d, v_sub e (snd ev) = Some d) \/
+     (v_is_number e = true /\ v_is_number (snd ev) = true)).
+
+Lemma within_defined_numbers : forall x y t, v_is_number x = true -> v_is_number y = true ->
+  exists b, within_tolerance x y t = Some b.
+Proof.
+  intros x y t Nx Ny. unfold within_tolerance. cbv zeta.
+  destruct x as [a | p | s a]; try discriminate; destruct y as [b | q | s' b]; try discriminate; simpl;
+    try (eexists; reflexivity); try destruct p; try destruct q; simpl; eexists; reflexivity.
+Qed.
+
+Lemma sample_oks_defined : forall t evs, Forall well_shaped evs ->
+  exists bs, sample_oks (fun x y => within_tolerance x y t) evs = Some bs.
+Proof.
+  intros t evs H. induction H as [|[ps s] r [e [rest [E1 HW]]] _ [bs IH]]; [exists []; reflexivity|].
+  simpl in E1, HW. subst ps. rewrite sample_oks_cons.
+  assert (D : exists b, within_tolerance e s t = Some b).
+  { destruct HW as [HW | [N1 N2]]; [apply within_defined; exact HW | apply within_defined_numbers; assumption]. }
+  destruct D as [b Hb]. rewrite Hb, IH. simpl. eexists; reflexivity.
+Qed.
+
+Theorem verdict_total : forall t failable answer evs, (0 <= failable)%Z -> Forall well_shaped evs ->
+  exists bs, sample_oks (fun x y => within_tolerance x y t) evs = Some bs /\ length bs = length evs /\
+    raw_check t failable answer evs =
+      Some (if enough (zlen evs) (nfail bs) failable then answer else fail_entry answer).
+Proof.
+  intros t failable answer evs Hf H. destruct (sample_oks_defined t evs H) as [bs Hbs].
+  exists bs. split; [exact Hbs | split; [eapply sample_oks_length; exact Hbs | apply verdict_iff_failures; assumption]].
+Qed.
